@@ -560,6 +560,56 @@ fn writeback_fault_programs() -> Vec<(String, String)> {
     out
 }
 
+/// Family `cross-block`: a GOTO that sits inside one FOR body / SELECT CASE block (or a nest of two) and whose label sits
+/// inside ANOTHER such block that is not around the jump: every pair of nests x jump first / label first x main module /
+/// SUB.  The front end refuses these programs (the header of the label's block has not pushed its register frame / its
+/// selector on the path of the jump), so on the unchanged tree they are counted as rejected and that is all.  A changed
+/// checker that accepts one of them makes it an ACCEPTED program, and then it is judged like every other accepted
+/// program of this check (after a wave-10 seed: block identity degenerated to nesting depth, so that a jump from a FOR
+/// body into a CASE block of the same depth was accepted).  Returns (name, program).
+fn cross_block_programs() -> Vec<(String, String)> {
+    fn wrap(kind: &str, var: &str, inner: &str) -> String {
+        match kind {
+            "for" => format!("FOR {}% = 1 TO 2\n{}NEXT\n", var, inner),
+            "forstep" => format!("FOR {}% = 1 TO 3 STEP 2\n{}NEXT\n", var, inner),
+            "case" => format!("SELECT CASE K%\nCASE 1\n{}CASE ELSE\nPRINT \"e\"\nEND SELECT\n", inner),
+            "caseelse" => format!("SELECT CASE K%\nCASE 5\nPRINT \"c\"\nCASE ELSE\n{}END SELECT\n", inner),
+            _ => unreachable!(),
+        }
+    }
+    let nests: [&[&str]; 8] = [&["for"], &["forstep"], &["case"], &["caseelse"], &["for", "case"], &["case", "for"], &["for", "for"], &["case", "caseelse"]];
+    let nest_of = |nest: &[&str], vars: [&str; 2], inner: &str| -> String {
+        let mut t = inner.to_owned();
+        for (k, b) in nest.iter().enumerate().rev() {
+            t = wrap(b, vars[k], &t);
+        }
+        t
+    };
+    let mut out = vec![];
+    for a in nests.iter() {
+        for b in nests.iter() {
+            for order in ["jump-first", "label-first"] {
+                for ctx in ["main", "sub"] {
+                    let stop = if ctx == "main" { "SYSTEM" } else { "EXIT SUB" };
+                    let at_label = format!("L:\nPRINT \"in\"; I%; J%\nC% = C% + 1\nIF C% > 4 THEN\nPRINT \"stop\"\n{}\nEND IF\n", stop);
+                    let jump = "IF D% = 0 THEN\nD% = 1\nGOTO L\nEND IF\n";
+                    let jb = nest_of(a, ["S", "T"], jump);
+                    let lb = nest_of(b, ["I", "J"], &at_label);
+                    let body = if order == "jump-first" { format!("{}{}", jb, lb) } else { format!("{}{}", lb, jb) };
+                    let name = format!("{}/{}/{}/{}", a.join(">"), b.join(">"), order, ctx);
+                    let text = if ctx == "main" {
+                        format!("' cross-block {}\nK% = 1\n{}PRINT \"after\"\n", name, body)
+                    } else {
+                        format!("' cross-block {}\nP\nPRINT \"main\"\nSUB P\nK% = 1\n{}PRINT \"after\"\nEND SUB\n", name, body)
+                    };
+                    out.push((name, text));
+                }
+            }
+        }
+    }
+    out
+}
+
 fn shape_signature(text: &str) -> String {
     // construct multiset: which statement keywords occur
     let u = text.to_ascii_uppercase();
@@ -687,6 +737,15 @@ fn main() {
             rep.exhaustive_parts.push(format!("block-labels: all {} combinations of host block x layout x nested construct x GOTO / RESUME label x context", n_all));
         }
     }
+    // family `cross-block`: refused by the front end on the unchanged tree (counted below); judged like any accepted
+    // program if a changed front end lets one through
+    {
+        let all = cross_block_programs();
+        rep.bump_by("programs.cross-block", all.len() as u64);
+        for (_, t) in all {
+            programs.push((t, "cross-block"));
+        }
+    }
     let n_grid = if thorough { 1500 } else { 150 };
     for _ in 0..n_grid {
         programs.push((rb_harness::gen_prog::grid(&mut rng), "grid"));
@@ -762,9 +821,17 @@ fn main() {
     for (text, origin) in &programs {
         let t = text.clone();
         match std::panic::catch_unwind(move || compile(&t)) {
-            Ok(Ok((res, udt))) => compiled.push((text.clone(), *origin, res, udt)),
+            Ok(Ok((res, udt))) => {
+                if *origin == "cross-block" {
+                    rep.bump("cross-block.accepted-by-front-end");
+                }
+                compiled.push((text.clone(), *origin, res, udt))
+            }
             Ok(Err(_)) => {
                 rep.bump("rejected-by-front-end");
+                if *origin == "cross-block" {
+                    rep.bump("cross-block.rejected-by-front-end");
+                }
                 if *origin == "faults" || *origin == "marks" || *origin == "arg-faults" || *origin == "block-labels" || *origin == "writeback-faults" {
                     rep.case(Some(text.clone()));
                     rep.fail(Failure {
